@@ -45,7 +45,10 @@ def stream_grad_model(chk, i, rng):
     cond = np.abs(gr_n - gr) * 1e3
     if cond.max() > 1e-9 * scale:
         chk.dist["ill-conditioned (tolerance widened)"] += 1
-    if np.any(np.abs(gr - mg) > 1e-8 * np.abs(mg) + 1e-9 * scale + cond) or (np.isnan(gr) != np.isnan(mg)).any():
+    extra, ill = gemlib.widen(obj, ovo, P, A, g.epsilon)
+    if ill:
+        chk.dist["ill-conditioned (values not compared)"] += 1
+    elif np.any(np.abs(gr - mg) > (1e-8 + extra) * np.abs(mg) + (1e-9 + extra) * scale + cond) or (np.isnan(gr) != np.isnan(mg)).any():
         chk.fail(f"grad:model-mismatch:{obj}:{'ovo' if ovo else 'ova'}", f"{label}: returned gradient differs from the model's (max abs diff {np.nanmax(np.abs(gr - mg)):.3e})", replay)
     chk.dist[f"obj={obj}:{'ovo' if ovo else 'ova'}"] += 1
     chk.dist[f"mode={mode}"] += 1
@@ -89,23 +92,31 @@ def stream_grad_fd(chk, i, rng):
         def f(t):
             return float(np.asarray(g(P + t * D, A)))
     pred = float((gr * D).sum())
-    ests = []
-    for h in (1e-4, 5e-5):
-        ests.append(((f(h) - f(-h)) / (2 * h), (f(h) - f(0)) / h, (f(0) - f(-h)) / h))
-    c1, c2 = ests[0][0], ests[1][0]
-    rich = (4 * c2 - c1) / 3
-    # kink guard: forward and backward differences must agree, else we are on a non-differentiable point
-    fwd, bwd = ests[1][1], ests[1][2]
-    mag = max(abs(pred), abs(rich), 1e-6)
-    kink = abs(fwd - bwd) > 1e-3 * mag + 1e-7
-    if kink and obj in ("tv", "ws", "mmd"):
+    f0 = f(0.0)
+    # central differences at several step sizes; a step size is usable when forward and backward differences agree
+    # (no kink of the piecewise-smooth objectives TV / Wasserstein / MMD inside [-h, h]). The gradient is accepted when
+    # ANY usable step size confirms it (a kink between two step sizes must not condemn it); it is reported only when
+    # every usable step size contradicts it.
+    usable, agree = [], False
+    for h in (1e-4, 3e-5, 1e-5, 3e-6):
+        fp, fm = f(h), f(-h)
+        cen, fwd, bwd = (fp - fm) / (2 * h), (fp - f0) / h, (f0 - fm) / h
+        mag = max(abs(pred), abs(cen), 1e-6)
+        noise = 4e-16 * max(abs(f0), 1.0) / h
+        if abs(fwd - bwd) > 2e-3 * mag + 4 * noise:
+            continue
+        usable.append((h, cen))
+        tol = (2e-4 if obj == "ws" else 2e-5) * mag + 1e-8 + 4 * noise + abs(fwd - bwd)
+        if abs(pred - cen) <= tol:
+            agree = True
+            break
+    if not usable:
         chk.dist["fd:kink-skipped"] += 1
         chk.count(None)
         return
-    tol = (2e-4 if obj == "ws" else 2e-5) * mag + 1e-8
-    if abs(pred - rich) > tol:
+    if not agree:
         chk.fail(f"grad:finite-difference:{obj}:{'ovo' if ovo else 'ova'}",
-                 f"{label}: <grad, D> = {pred!r} but the central difference of the returned score is {rich!r} ({'softmax' if via_softmax else 'tangent'} direction)", replay, layer="L3")
+                 f"{label}: <grad, D> = {pred!r} but central differences of the returned score give {[(h, c) for h, c in usable]} ({'softmax' if via_softmax else 'tangent'} direction)", replay, layer="L3")
     chk.dist[f"fd:{obj}:{'ovo' if ovo else 'ova'}"] += 1
     chk.count(("fd", label, n, K, scale, akind, via_softmax))
 
